@@ -97,6 +97,9 @@ type Worker struct {
 	err          error
 
 	globals  map[*ssa.Global]*Obj
+	globUndo  []globUndo
+	globSaved map[*Obj]bool
+	restoring bool
 	initDone map[*ssa.Package]bool
 	inInit   int
 	objSeq   int
@@ -448,7 +451,20 @@ func (w *Worker) site(key, msg, pos string) *AssertSite {
 
 // RunPath executes entry once following prefix, returning the result and any
 // alternative prefixes discovered.
+type globUndo struct {
+	o *Obj
+	v Value
+}
+
 func (w *Worker) RunPath(entry *ssa.Function, prefix []Decision) (res *PathResult) {
+	// undo the previous path's writes to package-level variables
+	w.restoring = true
+	for i := len(w.globUndo) - 1; i >= 0; i-- {
+		w.store(w.globUndo[i].o, w.globUndo[i].v)
+	}
+	w.restoring = false
+	w.globUndo = w.globUndo[:0]
+	w.globSaved = map[*Obj]bool{}
 	w.prefix = prefix
 	w.decisions = w.decisions[:0]
 	w.pc = w.pc[:0]
